@@ -522,9 +522,9 @@ func (p Parameters) MaxBit(levelQ, levelP int) (c int) {
 // If levelP > 0 or Base2Decomposition == 0, then returns 1 for all qi.
 func (p Parameters) BaseTwoDecompositionVectorSize(levelQ, levelP, Base2Decomposition int) (base []int) {
 
-	logqi := p.LogQi()
+	qi := p.Q()
 
-	base = make([]int, len(logqi))
+	base = make([]int, len(qi))
 
 	if Base2Decomposition == 0 || levelP > 0 {
 		for i := range base {
@@ -532,7 +532,8 @@ func (p Parameters) BaseTwoDecompositionVectorSize(levelQ, levelP, Base2Decompos
 		}
 	} else {
 		for i := range base {
-			base[i] = (logqi[i] + Base2Decomposition - 1) / Base2Decomposition
+			// bit length of qi (and not round(log2(qi)), which drops the top bit of a prime just above a power of two)
+			base[i] = (bits.Len64(qi[i]) + Base2Decomposition - 1) / Base2Decomposition
 		}
 	}
 
